@@ -33,6 +33,10 @@ type c14Item struct {
 	Seed string `json:"seed"`
 	LV   uint   `json:"lv"`
 	V6   bool   `json:"v6"`
+	// history ops only: "select" (default) or "selphantom" with Filter / Weighted
+	Op       string `json:"op"`
+	Filter   string `json:"filter"`
+	Weighted bool   `json:"weighted"`
 }
 type c14Case struct {
 	Op       string    `json:"op"`
@@ -53,6 +57,10 @@ type c14Res struct {
 	Is4     bool     `json:"is4"`
 	Err     string   `json:"err"`
 	Contain [][2]int `json:"contain"`
+	// hist: the ops on one shared selector (First), each on a fresh selector (Serial), on the shared one again (Again)
+	First      []c14Res `json:"first,omitempty"`
+	Again      []c14Res `json:"again,omitempty"`
+	CfgChanged string   `json:"cfg_changed,omitempty"`
 	// conc
 	Serial []c14Res `json:"serial,omitempty"`
 	Diffs  int      `json:"diffs"`
@@ -112,13 +120,8 @@ func c14Record(c *c14Cfg, p *PhantomIP, err error) c14Res {
 	return r
 }
 
-func c14Select(c *c14Cfg, seed []byte, lv uint, v6 bool) (r c14Res) {
-	defer func() {
-		if e := recover(); e != nil {
-			r = c14Res{Out: "panic", Err: fmt.Sprint(e)}
-		}
-	}()
-	// generation 7 is the one asked for; another generation is always configured next to it
+// generation 7 is the one asked for; another generation is always configured next to it
+func c14Selector(c *c14Cfg, seed []byte) *PhantomIPSelector {
 	one := uint32(1)
 	sel := &PhantomIPSelector{Networks: map[uint]*SubnetConfig{
 		9: {WeightedSubnets: []*pb.PhantomSubnets{{Weight: &one, Subnets: []string{"10.0.0.0/8", "fd00::/8"}}}},
@@ -128,20 +131,29 @@ func c14Select(c *c14Cfg, seed []byte, lv uint, v6 bool) (r c14Res) {
 	} else if len(seed) > 0 && seed[0]&1 == 1 {
 		sel.RemoveGeneration(7) // leaves an explicit nil entry
 	}
-	p, err := sel.Select(seed, 7, lv, v6)
-	return c14Record(c, p, err)
+	return sel
 }
 
-func c14SelPhantom(c *c14Cfg, seed []byte, filter string, weighted bool) (r c14Res) {
+func c14SelectOn(sel *PhantomIPSelector, c *c14Cfg, seed []byte, lv uint, v6 bool) (r c14Res) {
 	defer func() {
 		if e := recover(); e != nil {
 			r = c14Res{Out: "panic", Err: fmt.Sprint(e)}
 		}
 	}()
-	var list *pb.PhantomSubnetsList
-	if c != nil {
-		list = &pb.PhantomSubnetsList{WeightedSubnets: c14Groups(c)}
-	}
+	p, err := sel.Select(seed, 7, lv, v6)
+	return c14Record(c, p, err)
+}
+
+func c14Select(c *c14Cfg, seed []byte, lv uint, v6 bool) (r c14Res) {
+	return c14SelectOn(c14Selector(c, seed), c, seed, lv, v6)
+}
+
+func c14SelPhantomOn(list *pb.PhantomSubnetsList, c *c14Cfg, seed []byte, filter string, weighted bool) (r c14Res) {
+	defer func() {
+		if e := recover(); e != nil {
+			r = c14Res{Out: "panic", Err: fmt.Sprint(e)}
+		}
+	}()
 	var tr SubnetFilter
 	switch filter {
 	case "v4":
@@ -151,6 +163,68 @@ func c14SelPhantom(c *c14Cfg, seed []byte, filter string, weighted bool) (r c14R
 	}
 	p, err := SelectPhantom(seed, list, tr, weighted)
 	return c14Record(c, p, err)
+}
+
+// the configuration of a selector's generation 7, as the code holds it now
+func c14Dump(sel *PhantomIPSelector) string {
+	sc := sel.Networks[7]
+	if sc == nil {
+		return "nil"
+	}
+	out := ""
+	for _, g := range sc.WeightedSubnets {
+		if g == nil {
+			out += "<nil>;"
+			continue
+		}
+		out += fmt.Sprintf("w=%d rp=%v nil=%v %v;", g.GetWeight(), g.GetRandomizeDstPort(), g.Subnets == nil, g.Subnets)
+	}
+	return out
+}
+
+// a history of selections on ONE selector object (and one PhantomSubnetsList sharing its groups)
+func c14Hist(cs c14Case) c14Res {
+	var r c14Res
+	r.Out = "hist"
+	sel := c14Selector(cs.Cfg, nil)
+	var list *pb.PhantomSubnetsList
+	if cs.Cfg != nil {
+		list = &pb.PhantomSubnetsList{WeightedSubnets: sel.Networks[7].WeightedSubnets}
+	}
+	before := c14Dump(sel)
+	run := func(it c14Item, s *PhantomIPSelector, l *pb.PhantomSubnetsList) c14Res {
+		seed, _ := hex.DecodeString(it.Seed)
+		if it.Op == "selphantom" {
+			return c14SelPhantomOn(l, cs.Cfg, seed, it.Filter, it.Weighted)
+		}
+		return c14SelectOn(s, cs.Cfg, seed, it.LV, it.V6)
+	}
+	for i, it := range cs.Items {
+		r.First = append(r.First, run(it, sel, list))
+		if now := c14Dump(sel); now != before && r.CfgChanged == "" {
+			r.CfgChanged = fmt.Sprintf("after op %d (%s libver %d weighted %v): before [%s] after [%s]", i, it.Op, it.LV, it.Weighted, before, now)
+		}
+	}
+	for _, it := range cs.Items {
+		fresh := c14Selector(cs.Cfg, nil)
+		var fl *pb.PhantomSubnetsList
+		if cs.Cfg != nil {
+			fl = &pb.PhantomSubnetsList{WeightedSubnets: fresh.Networks[7].WeightedSubnets}
+		}
+		r.Serial = append(r.Serial, run(it, fresh, fl))
+	}
+	for _, it := range cs.Items {
+		r.Again = append(r.Again, run(it, sel, list))
+	}
+	return r
+}
+
+func c14SelPhantom(c *c14Cfg, seed []byte, filter string, weighted bool) (r c14Res) {
+	var list *pb.PhantomSubnetsList
+	if c != nil {
+		list = &pb.PhantomSubnetsList{WeightedSubnets: c14Groups(c)}
+	}
+	return c14SelPhantomOn(list, c, seed, filter, weighted)
 }
 
 func c14Same(a, b c14Res) bool {
@@ -165,9 +239,11 @@ func c14Conc(cs c14Case) c14Res {
 		seeds[i], _ = hex.DecodeString(it.Seed)
 		r.Serial = append(r.Serial, c14Select(cs.Cfg, seeds[i], it.LV, it.V6))
 	}
+	// one selector object shared by the repeats and by all goroutines
+	shared := c14Selector(cs.Cfg, nil)
 	// repeat serially: repetition must not change anything either
 	for i, it := range cs.Items {
-		again := c14Select(cs.Cfg, seeds[i], it.LV, it.V6)
+		again := c14SelectOn(shared, cs.Cfg, seeds[i], it.LV, it.V6)
 		r.Runs++
 		if !c14Same(again, r.Serial[i]) {
 			r.Diffs++
@@ -188,7 +264,7 @@ func c14Conc(cs c14Case) c14Res {
 				for j := range cs.Items {
 					i := (j + w) % len(cs.Items)
 					it := cs.Items[i]
-					got := c14Select(cs.Cfg, seeds[i], it.LV, it.V6)
+					got := c14SelectOn(shared, cs.Cfg, seeds[i], it.LV, it.V6)
 					mu.Lock()
 					r.Runs++
 					if !c14Same(got, r.Serial[i]) {
@@ -228,6 +304,8 @@ func TestVerifC14Phantoms(t *testing.T) {
 			res[i] = c14SelPhantom(c.Cfg, seed, c.Filter, c.Weighted)
 		case "conc":
 			res[i] = c14Conc(c)
+		case "hist":
+			res[i] = c14Hist(c)
 		}
 	}
 	out, _ := json.Marshal(res)
